@@ -343,8 +343,12 @@ def random_ts(rng, n_obj=4):
         if x < 0.6: return {"k": "nn", "of": t}
         if x < 0.75: return {"k": "list", "of": t}
         if x < 0.85: return {"k": "list", "of": {"k": "nn", "of": t}}
-        if x < 0.93: return {"k": "nn", "of": {"k": "list", "of": {"k": "nn", "of": t}}}
-        return {"k": "nn", "of": {"k": "list", "of": t}}
+        if x < 0.90: return {"k": "nn", "of": {"k": "list", "of": {"k": "nn", "of": t}}}
+        if x < 0.94: return {"k": "nn", "of": {"k": "list", "of": t}}
+        # nested lists: [[T]], [[T!]!], [[T]!]!
+        if x < 0.96: return {"k": "list", "of": {"k": "list", "of": t}}
+        if x < 0.98: return {"k": "list", "of": {"k": "nn", "of": {"k": "list", "of": {"k": "nn", "of": t}}}}
+        return {"k": "nn", "of": {"k": "list", "of": {"k": "nn", "of": {"k": "list", "of": t}}}}
     def F(ty): return {"ty": ty, "outer": False, "guard": False, "gen": True}
     types = {}
     types["Color"] = {"kind": "ENUM", "fields": {}, "implements": [], "members": [], "values": ["RED", "GREEN", "BLUE"][:rng.randint(2, 3)]}
@@ -422,5 +426,12 @@ def wrapping_docs():
         [f(1, "nodes"), on(2, "A"), f(3, "self"), f(4, "n"), f(1, "nodes"), on(2, "A"), f(3, "self"), f(4, "nn")],
         [f(1, "a"), f(2, "kidsNN"), f(3, "peer"), f(4, "id"), f(2, "kidsNN"), f(3, "peer"), f(4, "label"), f(3, "id")],
         [f(1, "ann"), f(2, "opt"), f(3, "u"), on(4, "A"), f(5, "n"), f(2, "opt"), f(3, "u"), on(4, "A"), f(5, "nn"), on(4, "B"), f(5, "b")],
+        # leaf lists, nested lists, lists of enums; interface inheritance (Entity between Node and the objects)
+        [f(1, "a"), f(2, "ints"), f(2, "grid"), f(2, "colors"), f(2, "n")],
+        [f(1, "ann"), f(2, "ints"), f(2, "colors"), f(1, "n")],
+        [f(1, "nodes"), on(2, "A"), f(3, "grid"), f(3, "ints", "g"), f(2, "id")],
+        [f(1, "a"), f(2, "kids"), on(3, "A"), f(4, "colors"), f(4, "grid"), f(2, "ints"), f(2, "ints", "again")],
+        [f(1, "entity"), f(2, "id"), on(2, "Node"), f(3, "peer"), on(4, "Entity"), f(5, "label"), on(2, "A"), f(3, "ints")],
+        [f(1, "node"), on(2, "Entity"), on(3, "B"), f(4, "b"), on(3, "A"), f(4, "grid"), f(2, "__typename")],
     ]
     return [tree_from_flat(d, "query") for d in docs]
